@@ -256,7 +256,8 @@ class C03(Profile):
         grids = grid_recs([g for g in ALL_GRIDS if g != "detect"])
         robust = [r for r in grids if r.get("grid") == "robust"]
         others = [r for r in grids if r.get("grid") != "robust"]
-        sel = corp + robust + (others if th else pick(others, 500, rng))
+        sel = corp + robust + (others if th else pick(others, 400, rng))
+        sel_ids = {r["id"] for r in sel}
 
         def add(rec: dict, text: str, tr: list[str], inn: Any, outp: Any, suffix: str, **extra: Any) -> None:
             out.append(opt_case("C03", f"{rec['id']}|{'+'.join(tr) or 'none'}|{suffix}", text, tr, inn, outp, None, ["c03"], 0, seed, tag=rec.get("tag"), allow_partial_in=True, **extra))
@@ -264,8 +265,10 @@ class C03(Profile):
         for rec in sel:
             inn, outp = decl_of(rec)
             configs = [list(DEFAULT_TRAITS), list(TRAITS)]
-            if rec in robust or th:
+            if th:
                 configs += [[t] for t in TRAITS] + [[]]
+            elif rec in robust:
+                configs += [[t] for t in rng.sample(TRAITS, 4)] + [[]]
             else:
                 configs.append(own_traits(rec))
             configs += cases.trait_subsets(rng, 4 if th else 1)
@@ -278,7 +281,13 @@ class C03(Profile):
             add(rec, rec["program"], list(DEFAULT_TRAITS), "auto", "auto", "auto")
             add(rec, rec["program"], list(TRAITS), [], [], "empty")
             add(rec, rec["program"], list(DEFAULT_TRAITS), inn + [["vf_absent_in", 2]], (outp or []) + [["vf_absent_out", 1]], "absent")
-        for rec, desc, text in mutants_of(corp + grids, 12000 if th else 900, rng):
+        if not th:
+            # every other grid program once with all traits on: breadth over input shapes
+            for rec in others:
+                if rec["id"] not in sel_ids:
+                    inn, outp = decl_of(rec)
+                    add(rec, rec["program"], list(TRAITS), inn, outp, "exp")
+        for rec, desc, text in mutants_of(corp + grids, 12000 if th else 700, rng):
             inn = cases.explicit_in(text, rec.get("in"))
             outp = rec.get("out") if rec.get("out") is not None else [list(p) for p in cases.head_preds(text)]
             tr = rng.choice([list(DEFAULT_TRAITS), list(TRAITS), own_traits(rec)] + cases.trait_subsets(rng, 1))
@@ -401,11 +410,13 @@ class C06(Profile):
         n_inst = 12 if th else 6
         recs = [r for r in corpus_recs() if r["trait"] in AUX_ONLY + ["dependency", "regression"]] + grid_recs(["cleanup", "duplication", "symmetry", "minmax", "sumchains", "math", "projection", "domains", "objectives"])
         # programs written after the seeded rounds, sampled per class (their own tags are per program)
-        recs += [dict(r, tag=r["tag"].split("#")[0]) for r in grid_recs(["extra"]) if r.get("trait") in AUX_ONLY]
+        extras = [dict(r, tag=r["tag"].split("#")[0]) for r in grid_recs(["extra"]) if r.get("trait") in AUX_ONLY]
         subsets = [list(c) for k in range(1, 8) for c in itertools.combinations(AUX_ONLY, k)]
         out = []
         checks = ["equiv"] + (["stepwise"] if th else [])
-        sel = recs if th else pick(recs, 1000, rng)
+        # quick: every class of the extra grid (one program each) and a stratified sample of the rest
+        sel = recs + extras if th else pick(extras, len({r["tag"] for r in extras}), rng) + pick(recs, 800, rng)
+        recs = recs + extras
         for rec in sel:
             inn, outp = decl_of(rec)
             configs = [list(AUX_ONLY)] + [rng.choice(subsets) for _ in range(3 if th else 1)]
